@@ -182,7 +182,7 @@ prop("C11", "Pause state per party", "exploration", "fsmx",
 
 prop("C18", "Channel identities never collide", "exploration", "racex",
      "property testing (rapid) under the Go race detector: concurrent opens checked for uniqueness / monotonicity / happens-before order of the returned ids; manager lifetimes and duplicate requests with a byte-level diff of the existing record",
-     [hx("TestC18_RaceIDGenerator", 25, 1600), hxr("TestC18_RaceOpens", 120, 4800), hx("TestC18_Mgrx", 3600, 96000), hx("TestC18_FsmxDuplicate", 3000, 64000)],
+     [hx("TestC18_RaceIDGenerator", 25, 1600), hxr("TestC18_RaceOpens", 120, 4800), hx("TestC18_Mgrx", 3600, 96000), hx("TestC18_FsmxDuplicate", 3000, 64000), hx("TestC13_Migrate", 1200, 16000)],
      ["non-decreasing wall clock across manager lifetimes (as the statement assumes)",
       "interleavings of the concurrent opens are sampled by the Go scheduler; the race detector reports only races that occur in executed interleavings"],
      "generated goroutine counts x opens per goroutine (2..16 x 1..40) under -race, generated lifetimes and duplicate points; sampled",
@@ -198,7 +198,7 @@ prop("C19", "Channel state views are total and self-consistent", "exploration", 
 prop("C20", "Concurrent use is free of data races and deadlocks", "exploration", "racex",
      "generated concurrent programs (rapid) under the Go race detector with call-return watchdogs, a production-like Stop protocol and a post-Stop goroutine dump inspection; plus every graphsync hook x every message kind (return check), a graphsync double whose Pause / Unpause are served by the run loop that also delivers notifications (call vs. notification order generated), and the two-node end-to-end scenarios over real graphsync with a watchdog on Stop",
      [hxr("TestC20_Race", 80, 4800), hx("TestC20_GsxHooks", 4500, 128000), hx("TestC16_GsxCleanupRace", 1500, 32000), hxr("TestC18_RaceOpens", 60, 1200), hxr("TestC07_RaceReports", 120, 2400),
-      hx("TestC20_GsxLoop", 3000, 64000), hx("TestC20_GsxCancelUnconfirmed", 32, 320), hx("TestC20_GsxOpenRefused", 1500, 32000), hx("TestC01_E2E", 96, 1600, timeout_quick=900, timeout_thorough=3600)],
+      hx("TestC20_GsxLoop", 3000, 64000), hx("TestC20_GsxCancelUnconfirmed", 32, 320), hx("TestC20_GsxOpenRefused", 1500, 32000), hxr("TestC20_GsxDiagnosticsRace", 64, 1600), hx("TestC20_MgrxFailingOption", 900, 16000), hx("TestC01_E2E", 96, 1600, timeout_quick=900, timeout_thorough=3600)],
      ["the harness does not own the Go scheduler: schedules are sampled, and the detector only reports races that occur in executed interleavings",
       "Stop is driven the way production does: API callers are joined first, transport callbacks on existing channels keep arriving until the transport's Shutdown (the last step of Stop)",
       "bounded liveness: a call that has not returned after 20..60 s (typical latency: microseconds) is a deadlock"],
